@@ -1,3 +1,13 @@
 use crate::*;
 use super::se::*;
-harness!(se_h_selftest_nop, selftest_nop, { reach(END); });
+// pipeline self-test run by `./check --setup`: a symbolic byte through a real decoder, one assertion that holds,
+// one witness on each side of a data-dependent branch
+harness!(se_h_selftest_nop, selftest_nop, {
+    let b = sym_u8(0);
+    let mut d = WINDOWS_1252.new_decoder_without_bom_handling();
+    let mut out = [0u16; 4];
+    let (r, read, written) = d.decode_to_utf16_without_replacement(&[b], &mut out, true);
+    check(r == DecoderResult::InputEmpty && read == 1 && written == 1, 1);
+    if b < 0x80 { check(out[0] == b as u16, 2); reach(1); } else { check(out[0] >= 0x80, 3); reach(2); }
+    reach(END);
+});
